@@ -452,7 +452,7 @@ def twins(repo, rep):
 
 
 def run(repo, rep, tier):
-    rep.rule("R-C15-8", "every parameter of the functions behind this property is read (parametric shapes): none is accepted and then ignored")
+    rep.rule("R-C15-8", "every parameter of the functions behind this property is read (parametric shapes): none is accepted and then ignored, and no control parameter (cutoff, limit, tolerance, window, count, switch) is replaced by another value before use (coercion and default filling aside)")
     from .shared import unused_parameters
     unused_parameters(repo, rep, "R-C15-8", ("wavespectra.construct", "wavespectra.core.npstats.jonswap", "wavespectra.core.npstats.gaussian"), "parametric shapes")
     rep.rule("R-C15-9", "(shared with C01) the accessor's dm / dspr that measure a constructed spectrum divide moments taken over one band (no "
